@@ -27,7 +27,7 @@ META = {
 
 
 META['explanation'] += ' Rounds 4-5: ' + "R5: is_child_path decided by constant propagation on path pairs (helpers followed). R9 (= C16.R13) the loader's qualifier-suffix loop and guess_unique_key_id_element are interpreted over every loop of every shipped map: same-position segments get distinct counter paths. R10 _is_loop_match decided recursively on wrapper loops: matches iff any child loop matches."
-META['technique'] += '; conditional constant propagation over the CFG on finite, complete input domains (DESIGN.md 10.4.1)'
+META['technique'] = META.get('technique', 'static analysis: AST/CFG rules over /repo source + shipped XML data') + '; conditional constant propagation over the CFG on finite, complete input domains (DESIGN.md 10.4.1)'
 
 
 def _whitelist(ctx):
